@@ -156,7 +156,9 @@ fn sqrt_abs_octahedron(rng: &mut Rng) -> Built {
         let ab = ctx.sqrt(sq).unwrap();
         sum = Some(match sum { None => ab, Some(s) => ctx.add(s, ab).unwrap() });
     }
-    let r = 0.45 + 0.05 * rng.below(3) as f32 + 0.013;
+    // large (its tips stay inside the region): the volume clause is relative to area x cell, and a wrong collapse costs a
+    // fraction of the volume
+    let r = 0.7 + 0.05 * rng.below(4) as f32 + 0.013;
     let kr = k(&mut ctx, r);
     let root = ctx.sub(sum.unwrap(), kr).unwrap();
     Built { ctx, root, desc: format!("octahedron sqrt(t^2) r={r}") }
@@ -386,7 +388,7 @@ fn run<F: Function + RenderHints + MathFunction + Clone>(w: &mut dyn Write, id: 
     let sc = |v: f64| (v * 1.0e6).round() as i64;
     let mut j = json!({"ev": "mesh", "id": *id, "status": "ok", "msg": "", "desc": b.desc, "backend": backend, "depth": depth, "threads": threads, "w2m": wdesc,
         "nv": nv, "tris": tris, "nonfinite": nonfinite.len(), "index_ok": ok_index,
-        "far_milli": (far * 1000.0).round().min(2.0e9) as i64, "vol": sc(vol), "ref_vol": sc(ref_vol), "tol": sc(tol * if depth <= 3 { 3.0 } else { 1.5 }), "area": sc(area), "ref_area": sc(ref_area), "cell": sc(cell),
+        "far_milli": (far * 1000.0).round().min(2.0e9) as i64, "vol": sc(vol), "ref_vol": sc(ref_vol), "tol": sc(tol * if depth <= 3 { 3.0 } else if b.desc.starts_with("csg3") { 1.5 } else { 0.8 }), "area": sc(area), "ref_area": sc(ref_area), "cell": sc(cell),
         "dup_pairs": dup_pairs, "dup_saf": dup_saf, "components": components, "inward": inward, "undecided": undecided, "collapses": collapses});
     for (k, v) in extra.as_object().unwrap() {
         j[k] = v.clone();
@@ -453,6 +455,9 @@ fn main() {
     let maxd = if quick { 4 } else { 6 };
     for i in 0..n {
         let depth = if !quick && i % 25 == 24 { 6 } else { 1 + (i % (maxd.min(5))) as u8 };
+        // compact: the solid stays within +-0.6 of the origin in x and y and above z = -0.6, i.e. strictly inside the image
+        // of the region even under the strong perspective transforms below
+        let mut compact = matches!(i % 7, 2 | 6) || (i % 7 == 1 && i % 2 == 1);
         let b = match i % 7 {
             0 => shapes::random_csg3(&mut rng, 1 + (i / 6) % 4, true),
             1 => if i % 2 == 0 { exact_box(&mut rng) } else { sqrt_abs_octahedron(&mut rng) },
@@ -460,6 +465,7 @@ fn main() {
             3 => bumpy_slab(&mut rng, depth.max(2)),
             4 => {
                 let g = [0.0f32, 0.25, -0.5, 0.1][rng.below(4)];
+                compact = g.abs() <= 0.1;
                 cylinder(0.2 + 0.05 * rng.below(5) as f32, -0.43, 0.31 + 0.1 * rng.below(3) as f32, g, -g)
             }
             5 => bumpy_slab(&mut rng, depth.max(3).min(4)),
@@ -472,19 +478,26 @@ fn main() {
                 Built { ctx, root, desc: format!("centred box {lo:?}..{hi:?}") }
             }
         };
-        let depth = if matches!(i % 7, 3 | 5) { depth.max(2) } else if i % 7 == 6 || (i % 7 == 1 && i % 2 == 1) { depth.max(3) } else { depth };
+        let depth = if matches!(i % 7, 3 | 5) { depth.max(2) } else if i % 7 == 6 { depth.max(3) } else { depth };
+        // the octahedra and the compact shapes under a perspective transform are meshed finely: at depth 5 a wrong vertex
+        // placement is several times the sampling resolution
+        let persp = (i / 2) % 4 == 1 && i % 4 == 2 && i % 7 != 0;
+        let depth = if (i % 7 == 1 && i % 2 == 1) || (persp && compact) { 5 } else { depth };
         // world-to-model transforms that keep the surface strictly inside the region
         let mut moved = Vector3::new(0.0f32, 0.0, 0.0);
         let (w2m, scale, wdesc) = match (i / 2) % 4 {
             0 => (Matrix4::identity(), 1.0f32, "identity".to_string()),
-            1 if i % 4 == 2 => {
+            // (not for random CSG: its unclamped QEF vertices can leave the region, and the projective divide has a pole
+            // outside it)
+            1 if i % 4 == 2 && i % 7 != 0 => {
                 // a projective world-to-model transform (a perspective camera): model = (x, y, z) / (1 + p z).  Shapes of
                 // the generator stay within +-0.6, i.e. strictly inside the image of the region; cells are up to 1 / (1 - p)
                 // times larger in model space
-                let pz = [0.2f32, 0.3, -0.25][rng.below(3)];
+                let pz = if compact { [0.6f32, -0.6][rng.below(2)] } else { [0.3f32, -0.25, 0.2][rng.below(3)] };
                 let mut m = Matrix4::identity();
                 m[(3, 2)] = pz;
-                (m, 1.0 / (1.0 - pz.abs()), format!("perspective {pz}"))
+                // cell size in model space where the solids are (|z| <= 0.6): at most 1 / (1 - 0.6 |p|) times the world cell
+                (m, 1.0 / (1.0 - 0.6 * pz.abs()), format!("perspective {pz}"))
             }
             1 => (Matrix4::identity(), 1.0f32, "identity".to_string()),
             2 => {
